@@ -142,7 +142,10 @@ add("C15",
     "page sizes 1,2,3,1000, both sides of the multipart threshold): step results, key set = file set, bytes, every read-API answer compared. "
     "Correspondence: the Gallina scan / paging model evaluated on the observed bucket dumps and request sequences.",
     "HTTP, rusoto, tokio, request signing and real S3 semantics are outside the model; the stand-in (vplib/s3stub.py) is trusted. Prefixes "
-    "spelled with trailing, only, leading and inner double slashes are generated as must-pass (repaired by 1405318).",
+    "spelled with trailing, only, leading and inner double slashes are generated as must-pass (repaired by 1405318). The S3 object-root "
+    "validation and purge guards (1c63a11, 900305c) are modelled (purge of an arbitrary id removes exactly the subtree iff not spared, a "
+    "refused purge leaves everything); refused-root, guarded-purge and prefix-overlapping-root histories are must-pass. Hypothesis: ids "
+    "map to normalised relative object roots (no empty, `.` or `..` part): the file system normalises such roots, S3 keys are literal.",
     "machine-checked proof in Coq (paging independence, join laws, bijection) + fs-vs-S3 differential on histories")
 
 add("C16",
@@ -181,8 +184,8 @@ add("C19",
     "abstracted to a model tree and list_objects(None|glob), list_staged_objects, get_object compared inside Coq. Search: listed ids = the "
     "driver's own record as a multiset.",
     "Trusted: Coq kernel, Model/Listing.v, tree abstraction in checks/c19.py, globset behaviour on the generated subset. Known findings: id needing "
-    "a JSON escape, layout path occupied, '?' matching one byte. Roots named `extensions` below the storage root and the stale id-path cache - "
-    "repaired by 38fe584, 4564259 - are must-pass regression inputs; every purge is compared with the model and validate_repo must visit "
+    "a JSON escape, '?' matching one byte. Roots named `extensions` below the storage root, the stale id-path cache and occupied / nested layout "
+    "paths - repaired by 38fe584, 4564259, 01aa490 and its completion - are must-pass regression inputs; every purge is compared with the model and validate_repo must visit "
     "exactly the committed objects.",
     "machine-checked proof in Coq (walk/lookup invariants over arbitrary trees) + correspondence on built repositories")
 
